@@ -225,6 +225,8 @@ def build_world(world):
     b = Built()
     b.world = world
     b.flags = make_flags(world)
+    if world.get("via_loader"):
+        return _build_via_loader(world, b)
     b.worker_pools = build_cluster(world["cluster"])
     profiles = {name: build_profile(p) for name, p in world["profiles"].items()}
     b.profiles = profiles
@@ -258,6 +260,49 @@ def build_world(world):
         b.loader = _LOADER_CLS[1](b.full_workload, b.workload, world["loader"].get("window", world["loader"]["interval"]))
     else:
         b.loader = _LOADER_CLS[0](b.workload)
+    b.scheduler = build_policy(world, b)
+    b.loop_timeout = US(world["sim"]["loop_timeout"])
+    b.scheduler_frequency = US(world["sim"]["scheduler_frequency"])
+    return b
+
+
+def _build_via_loader(world, b):
+    """the world is rendered as a YAML/JSON description (scratch directory outside /repo and /verif, removed
+    right after loading) and instantiated by the project's own WorkloadLoader / WorkerLoader; the simulator then
+    gets the real loader object.  Everything downstream (monitors, oracles) still takes its expectations from the
+    world spec."""
+    import shutil
+    import tempfile
+
+    from . import cli19
+
+    for g in world["graphs"]:
+        if g["release"]["type"] == "fixed_gamma":
+            g["release"] = {"type": "gamma", "rate": g["release"]["rate"], "coefficient": g["release"]["coefficient"],
+                            "invocations": g["release"]["invocations"], "start": g["release"].get("start", 0)}
+    fmt = world["via_loader"]
+    wl_desc, wk_desc = cli19.to_descriptions(world, terse=(fmt.get("terse", False)))
+    tmp = tempfile.mkdtemp(prefix="erdos-verif-")
+    try:
+        ext = fmt.get("format", "json")
+        wl_path = os.path.join(tmp, f"workload.{ext}")
+        wk_path = os.path.join(tmp, f"workers.{ext}")
+        cli19._dump(wl_desc, wl_path)
+        cli19._dump(wk_desc, wk_path)
+        from data import WorkerLoader, WorkloadLoader
+
+        wloader = WorkloadLoader(path=wl_path, _flags=b.flags)
+        kloader = WorkerLoader(worker_profile_path=wk_path, _flags=b.flags)
+    finally:
+        shutil.rmtree(tmp, ignore_errors=True)
+    b.worker_pools = kloader.get_worker_pools()
+    b.workload = wloader.workload
+    b.loader = wloader
+    b.profiles = {}
+    b.job_graphs = dict(b.workload.job_graphs) if hasattr(b.workload, "job_graphs") else {}
+    b.preloaded = []
+    if world.get("stagger_sources"):
+        _stagger_sources(world, b)
     b.scheduler = build_policy(world, b)
     b.loop_timeout = US(world["sim"]["loop_timeout"])
     b.scheduler_frequency = US(world["sim"]["scheduler_frequency"])
